@@ -46,6 +46,12 @@ Theorem C01_partition : forall g n sof s, 1 <= n -> reachable g n sof s ->
 Proof. intros g n sof s Hn R. pose proof (reachable_Inv g n sof s Hn R) as I. split; apply I. Qed.
 Print Assumptions C01_partition.
 
+(* the executable well-formedness check evaluated on the task graph of every co-simulated run (a topological order computed
+   by [toposort]) is sound: a graph that passes it is well formed, so the theorems above apply to it *)
+Theorem C01_wf_check_sound : forall g order, wf_b g order = true -> wf g (fun i => index_of i order).
+Proof. exact wf_b_sound. Qed.
+Print Assumptions C01_wf_check_sound.
+
 (* F15 (refuted part): if a worker thread is killed by a BaseException raised by user code, the run never ends:
    a reachable state with a main loop that is not over and no enabled task move (other than the user pressing Ctrl-C,
    after which the main thread drains the completion queue forever) *)
